@@ -7,6 +7,7 @@ from .. import paths
 from ..core import FUNC, call_attr, calls_in, const, dotted, is_const, kwarg, norm, text, walk_local
 
 EXPLANATION = [
+    'C06.set-records-what-it-sent: every AdvertisingSet.set_<x> that sends <x> in an HCI command records the same expression in self.<x>.',
     "C06.connect-ind-address: shared with C03 / C05: CONNECT_IND announces the address the central's Connection is registered under.",
     'C06.adv-set-kept: on_hci_le_set_extended_advertising_parameters_command constructs an AdvertisingSet only for a handle not yet in self.advertising_sets.',
     'C06.lookup-by-address-only: LocalLink.find_classic_controller / find_le_controller select a controller by an address comparison only.',
@@ -579,7 +580,33 @@ def connect_ind_address_rule(ctx):
     connect_ind_address(ctx, 'C06.connect-ind-address')
 
 
+def set_records_what_it_sent(ctx):
+    """Each `set_<x>` method of device.AdvertisingSet that sends <x> to the controller records it in `self.<x>` (the
+    connection completed through the set takes its own address and data from those attributes): the value recorded is the
+    expression that was sent."""
+    R, p = ctx.r, ctx.p
+    rule = 'C06.set-records-what-it-sent'
+    ci = p.cls('bumble.device.AdvertisingSet')
+    if ci is None:
+        R.bad(rule, 'bumble.device.AdvertisingSet', 'anchor missing')
+        return
+    n = 0
+    for name, fn in sorted(ci.methods.items()):
+        if not name.startswith('set_') or name[4:] not in ci.annots:
+            continue
+        attr = name[4:]
+        sent = [kw.value for c in ast.walk(fn) if isinstance(c, ast.Call) and (call_attr(c) or '').startswith('HCI_') for kw in c.keywords if kw.arg == attr]
+        if not sent:
+            continue
+        n += 1
+        st = [s_ for s_ in walk_local(fn) if isinstance(s_, ast.Assign) and dotted(s_.targets[0]) == f'self.{attr}']
+        ok = len(st) >= 1 and all(norm(s_.value).strip('()') == norm(sent[0]).strip('()') or norm(s_.value) == attr for s_ in st)
+        R.check(ok, rule, f'bumble.device.AdvertisingSet.{name}', f'records self.{attr}', f'{name} sends `{norm(sent[0])[:50]}` to the controller but {"records `" + norm(st[0].value)[:40] + "`" if st else "does not record it"} in self.{attr}: the device keeps describing the set by the old value - a connection accepted through the set reports another own address than the one the peer connected to', p.loc(fn))
+    R.check(n >= 1, rule, 'bumble.device.AdvertisingSet | setters that send their attribute', f'{n}', 'none found (anchor)')
+
+
 RULES = [
+    ('C06.set-records-what-it-sent', set_records_what_it_sent),
     ('C06.connect-ind-address', connect_ind_address_rule),
     ('C06.adv-set-kept', adv_set_kept),
     ('C06.lookup-by-address-only', lookup_by_address_only),
